@@ -21,6 +21,7 @@ correspondence check compares them with the exact value to 1e-9.
 | probabilities sum to exactly 1 | `C16_distribution_sum` |
 | mean = Σ outcome·count / total; variance = E[X²] − E[X]² | `C16_mean_def`, `C16_variance_def` |
 | variance is the central second moment `Σ count·(x−mean)²/total`, hence never negative: `stdev()` — its square root — is always defined for rational outcomes | `C16_variance_central`, `C16_variance_nonneg` |
+| an explicit `mu`: used as given when truthy; a falsy `mu` (`0`, like `None`) is recomputed as the mean; passing the mean itself changes nothing | `C16_variance_mu`, `C16_variance_mu_falsy`, `C16_variance_mu_mean` |
 | unchanged by scaling the counts / by zero-count outcomes | `C16_mean_scale`, `C16_variance_scale`, `C16_mean_zero_pad`, `C16_variance_zero_pad` |
 | additivity for independent operands | `C16_mean_add`, `C16_variance_add` |
 | zero-total conventions (`total or 1`) | `C16_zero_total` |
@@ -48,6 +49,20 @@ theorem C16_variance_central (h : Hist ℚ) (hT : 0 < total h) :
   variance_central h hT
 
 theorem C16_variance_nonneg (h : Hist ℚ) : 0 ≤ varianceH h none := variance_nonneg h
+
+theorem C16_variance_mu (h : Hist ℚ) (v : ℚ) (hv : v ≠ 0) :
+    varianceH h (some v) = rsum h (fun x => x * x) / (tot1 h : ℚ) - v * v := by
+  show _ / _ - (if v = 0 then meanH h else v) * (if v = 0 then meanH h else v) = _
+  rw [if_neg hv]; rfl
+
+theorem C16_variance_mu_falsy (h : Hist ℚ) : varianceH h (some 0) = varianceH h none := by
+  show _ / _ - (if (0 : ℚ) = 0 then meanH h else 0) * (if (0 : ℚ) = 0 then meanH h else 0) = _
+  rw [if_pos rfl]; rfl
+
+theorem C16_variance_mu_mean (h : Hist ℚ) : varianceH h (some (meanH h)) = varianceH h none := by
+  by_cases hv : meanH h = 0
+  · rw [hv]; exact C16_variance_mu_falsy h
+  · rw [C16_variance_mu h _ hv, C16_variance_def]
 
 theorem C16_mean_scale (k : Nat) (hk : 0 < k) (h : Hist ℚ) : meanH (scaleH k h) = meanH h :=
   mean_scale k hk h
